@@ -59,6 +59,13 @@ func newHashDriver() *hashDriver {
 		{`"t"`, []any{"str", "t"}, "t"},
 		{"c:", []any{"sym", "c"}, "c"},
 		{"-1", []any{"int", -1}, ""},
+		// 12.. spellings at the edge of the key kinds: a one-element array around a one-element
+		// array (the key inside, like [7]); a dotted symbol (a symbol by type; hget reads it as a path,
+		// so the hash may refuse it -- "dsym" tells the spec which reading applies)
+		{"[[7]]", []any{"arr", []any{[]any{"arr", []any{[]any{"int", 7}}}}}, ""},
+		{"[['c']]", []any{"arr", []any{[]any{"arr", []any{[]any{"chr", 99}}}}}, ""},
+		{"(quote a.b)", []any{"dsym", "a.b"}, "a.b"},
+		{"(quote x.y)", []any{"dsym", "x.y"}, "x.y"},
 	}
 	return d
 }
@@ -73,7 +80,12 @@ type hop struct {
 	k  int // key index
 	v  int // value index
 	i  int
+	hv string // iteration forms: the name under which the program holds the hash ("" = h)
 }
+
+// the names under which every case holds its hash (one object, see fresh): the range macro and the
+// infix loop must present the content whatever the variable is called
+var hashNames = []string{"h", "n", "i"}
 
 func (d *hashDriver) run(o hop) map[string]any {
 	ev := map[string]any{"op": o.op}
@@ -107,8 +119,16 @@ func (d *hashDriver) run(o hop) map[string]any {
 	case "hpair":
 		text = fmt.Sprintf("(hpair h %d)", o.i)
 		ev["i"] = o.i
+	// the three iteration forms, over the hash under the name hv
 	case "range":
-		text = "(range k v h (trace k v))"
+		text = fmt.Sprintf("(range k v %s (trace k v))", hvName(o.hv))
+		ev["hv"] = hvName(o.hv)
+	case "rangego":
+		text = fmt.Sprintf("{for k, v := range %s { (trace k v) }}", hvName(o.hv))
+		ev["hv"] = hvName(o.hv)
+	case "rangego1":
+		text = fmt.Sprintf("{for k := range %s { (trace k) }}", hvName(o.hv))
+		ev["hv"] = hvName(o.hv)
 	case "str":
 		text = "(str h)"
 	case "json":
@@ -120,7 +140,7 @@ func (d *hashDriver) run(o hop) map[string]any {
 	switch {
 	case out.Kind != "val":
 		ev["res"] = projOutcome(d.env, out)
-	case o.op == "range":
+	case o.op == "range" || o.op == "rangego":
 		pairs := []any{}
 		for _, t := range d.traced {
 			if len(t) == 2 {
@@ -128,6 +148,14 @@ func (d *hashDriver) run(o hop) map[string]any {
 			}
 		}
 		ev["res"] = []any{"pairs", pairs}
+	case o.op == "rangego1":
+		ks := []any{}
+		for _, t := range d.traced {
+			if len(t) == 1 {
+				ks = append(ks, proj(d.env, t[0], 0))
+			}
+		}
+		ev["res"] = []any{"keyseq", ks}
 	case o.op == "str":
 		s, ok := out.Val.(*zygo.SexpStr)
 		if !ok {
@@ -148,6 +176,13 @@ func (d *hashDriver) run(o hop) map[string]any {
 		ev["res"] = proj(d.env, out.Val, 0)
 	}
 	return ev
+}
+
+func hvName(hv string) string {
+	if hv == "" {
+		return "h"
+	}
+	return hv
 }
 
 func atomFromText(t string) (any, bool) {
@@ -271,12 +306,23 @@ func (d *hashDriver) parseHashJson(b []byte) any {
 
 // battery: every observation after a mutation
 func (d *hashDriver) battery(nk int, evs []any) []any {
+	ks := make([]int, nk)
+	for k := range ks {
+		ks[k] = k
+	}
+	return d.batteryOf(ks, evs)
+}
+
+// batteryOf: every view of the hash, lookups for the keys ks; the iteration forms under every name
+func (d *hashDriver) batteryOf(ks []int, evs []any) []any {
 	evs = append(evs, d.run(hop{op: "keys"}), d.run(hop{op: "len"}), d.run(hop{op: "range"}),
+		d.run(hop{op: "range", hv: "n"}), d.run(hop{op: "range", hv: "i"}),
+		d.run(hop{op: "rangego", hv: "n"}), d.run(hop{op: "rangego1", hv: "i"}),
 		d.run(hop{op: "str"}), d.run(hop{op: "json"}))
 	for i := 0; i <= 3; i++ {
 		evs = append(evs, d.run(hop{op: "hpair", i: i}))
 	}
-	for k := 0; k < nk; k++ {
+	for _, k := range ks {
 		evs = append(evs, d.run(hop{op: "hget", k: k}))
 	}
 	evs = append(evs, d.run(hop{op: "hgetd", k: 1, v: 1}))
@@ -284,7 +330,7 @@ func (d *hashDriver) battery(nk int, evs []any) []any {
 }
 
 func (d *hashDriver) fresh() {
-	o := evalSafe(d.env, "(def h (hash))\n(def kb (hash))\n(hset kb (quote k) (keys h))")
+	o := evalSafe(d.env, "(def h (hash))\n(def n h)\n(def i h)\n(def kb (hash))\n(hset kb (quote k) (keys h))")
 	if o.Kind != "val" {
 		fatal("cannot create hash: %v", o.Err)
 	}
@@ -366,7 +412,43 @@ func init() {
 			}
 		}
 		rec2(nil)
-		// (c) random long histories over all 12 keys
+		// (d) exhaustive histories over the spellings at the edge of the key kinds together with the keys
+		// they name or touch: 7 / [7] / [[7]], 'c' / [['c']], a: / a.b / x.y; values of two types (the
+		// iteration forms must present them whatever their types are)
+		edge := []int{3, 6, 12, 4, 13, 0, 14, 15}
+		var em []hop
+		for _, k := range edge {
+			em = append(em, hop{op: "hset", k: k, v: 0}, hop{op: "hset", k: k, v: 2}, hop{op: "hdel", k: k})
+		}
+		L3 := 2
+		if c.thorough() {
+			L3 = 3
+		}
+		var rec3 func(prefix []hop)
+		rec3 = func(prefix []hop) {
+			if len(prefix) > 0 {
+				if c.mine(idx) {
+					d.fresh()
+					evs := []any{}
+					for j, m := range prefix {
+						evs = append(evs, d.run(m))
+						if len(prefix) <= 2 || j == len(prefix)-1 { // longer ones: their prefixes are cases of their own
+							evs = d.batteryOf(edge, evs)
+						}
+					}
+					w.write(hashCase{ID: fmt.Sprintf("e%d", idx), Evs: evs})
+				}
+				idx++
+			}
+			if len(prefix) == L3 {
+				return
+			}
+			for _, m := range em {
+				rec3(append(append([]hop(nil), prefix...), m))
+			}
+		}
+		rec3(nil)
+		// (c) random long histories over all keys
 		n := c.n
 		if n == 0 {
 			n = 300
@@ -383,9 +465,9 @@ func init() {
 			d.fresh()
 			evs := []any{}
 			ops := []string{"hset", "hset", "hset", "hdel", "hdel", "hget", "hgetd", "keys", "len", "hpair", "range", "str", "json",
-				"keep", "kept", "kept", "keptset", "keptwalk"}
+				"keep", "kept", "kept", "keptset", "keptwalk", "rangego", "rangego1"}
 			for s := 0; s < 30; s++ {
-				o := hop{op: pick(r, ops), k: r.intn(len(d.keys)), v: r.intn(len(hashVals)), i: r.intn(6) - 1}
+				o := hop{op: pick(r, ops), k: r.intn(len(d.keys)), v: r.intn(len(hashVals)), i: r.intn(6) - 1, hv: pick(r, hashNames)}
 				evs = append(evs, d.run(o))
 			}
 			evs = d.battery(len(d.keys), evs)
@@ -452,6 +534,9 @@ func (d *hashDriver) runText(o hop, text string, orig map[string]any) map[string
 	}
 	if i, ok := orig["i"].(float64); ok {
 		o.i = int(i)
+	}
+	if hv, ok := orig["hv"].(string); ok {
+		o.hv = hv
 	}
 	return d.run(o)
 }
